@@ -24,6 +24,12 @@ Definition tables_ok_kept (tb : tables) : bool :=
   forallb (is_exempt_at (SearchAgg tb))
     [["$search"; "index"]; ["$searchMeta"; "index"]; ["$vectorSearch"; "index"]; ["$vectorSearch"; "numCandidates"]; ["$vectorSearch"; "limit"]].
 
+(* C01 / C02 / C14: the tables the walkers consult for ANY key (the top level of Core, and of Agg for stages) are keyed by
+   operator names. A top-level key that is not '$'-prefixed is looked up for every user field of that name, so it must not
+   change what happens to the field's literals: such entries (today: if / then / else) are Redactable, nothing else. *)
+Definition tables_ok_bare (tb : tables) : bool :=
+  forallb (fun km => starts_with_dollar (fst km) || (match snd km with MT Redactable => true | _ => false end)) (Core tb ++ Agg tb).
+
 (* C05: the extended-JSON wrappers *)
 Definition tables_ok_binary (tb : tables) : bool :=
   has_ty_at (Core tb) ["$binary"; "base64"] Redactable && has_ty_at (Core tb) ["$binary"; "subType"] Exempt &&
